@@ -51,6 +51,8 @@ type c17Args struct {
 	Probe    string       `json:"probe"`
 	AltDir   string       `json:"altdir,omitempty"`    // base name of the directory handed to WithWorkingDirectory
 	AltDot   *c17EnvFile  `json:"altdotenv,omitempty"` // its .env
+	DirLink  bool         `json:"dirlink,omitempty"`   // the project directory is a symbolic link
+	AltLink  bool         `json:"altlink,omitempty"`   // the working directory is a symbolic link
 }
 
 var c17ErrClasses = []struct {
@@ -297,7 +299,7 @@ type c17NormArgs struct {
 }
 
 func init() {
-	core.Register("c17load", &core.CheckDef{Real: realC17Load, DriverOp: "c17load", Judge: c17Judge, Timeout: 60 * time.Second})
+	core.Register("c17load", &core.CheckDef{Real: realC17Load, DriverOp: "c17load", Judge: c17Judge, Timeout: 180 * time.Second})
 	core.Register("c17norm", &core.CheckDef{
 		Real: func(raw json.RawMessage) any {
 			var a c17NormArgs
